@@ -52,6 +52,7 @@ static void check(ByteSource& in, CaseInfo& ci) {
   ci.label(op->name); ci.d("%s pattern:", op->name); for (int k = 0; k < nzz; k++) ci.d(" z%d%s", vz[k], k < g.zo ? "(out)" : ""); for (int k = 0; k < nqq; k++) ci.d(" q%d%s", vq[k], k < g.qo ? "(out)" : ""); for (int k = 0; k < nff; k++) ci.d(" f%d%s", vf[k], k < g.fo ? "(out)" : "");
   if (ci.want_desc) for (int i = 0; i < nvz; i++) ci.desc += " z" + std::to_string(i) + "=" + show(zv[i], 40);
   Res rA, rR; op->run(aR, rR); op->run(aA, rA);
+  for (auto& sv : rA.sv) REQUIRE(sv.compare(0, 10, "ILL-FORMED") != 0, "%s: %s", op->name, sv.c_str());
   if (aliased) { ci.label(out_in ? "alias:output=input" : "alias:input=input"); ci.nontrivial = true; } else ci.label("alias:none_inputs_unchanged_only");
   for (int k = 0; k < g.zo; k++) if (out_in && zl(aA.z[k]) > alloc0[k]) ci.label("realloc_while_aliased");
   REQUIRE(rA == rR, "%s: returned values differ between the aliased call and the call with distinct variables", op->name);
